@@ -16,7 +16,7 @@ LEVEL = "exploration"
 RULE = ("random lattice arrays (multiples of 1/8, zeros, negatives) for the ten arithmetic commands, every int64/float64 assignment "
         "for n<=4 inputs (sampled for 5), input orders permuted, weights int/float/mixed; plus single-fault cases (shape, weight count, "
         "empty list); distinct by (command, n, dtype assignment, mask classes, param kinds, fault kind)")
-REQUIRED_COUNTERS = ["ref_postconditions", "order_checks", "fault_checks", "zero_divisor_cells", "zero_weight_sum_cases"]
+REQUIRED_COUNTERS = ["ref_postconditions", "order_checks", "fault_checks", "zero_divisor_cells", "zero_weight_sum_cases", "repeated_field_cases"]
 ASSUMPTIONS = ["reference models in mpv/ref.py", "int64 overflow and NaN/inf inputs are never generated", "result dtype is not judged"]
 
 COMMUTATIVE = ("Sum", "Multiply", "Minimum", "Maximum", "Mean", "WeightedSum", "WeightedMean")
@@ -66,7 +66,13 @@ def _gen(rng, cmd, n, dts):
             params["Weights"] = [1, -1] + [0] * (n - 2)
     order = list(range(n))
     rng.shuffle(order)
-    return {"kind": "value", "cmd": cmd, "inputs": ins, "params": params, "order": order}
+    case = {"kind": "value", "cmd": cmd, "inputs": ins, "params": params, "order": order}
+    if cmd in LIST_CMDS and n >= 2 and rng.random() < 0.2:
+        # the same field listed more than once: it counts as many times as it is listed
+        refs = [rng.randrange(n - 1) for _ in range(n)]
+        refs[rng.randrange(n)] = refs[0]
+        case["refs"] = refs
+    return case
 
 
 def _gen_fault(rng):
@@ -114,11 +120,16 @@ def run_case(ctx, case):
     inputs = [arr.build(s) for s in case["inputs"]]
     if case["kind"] == "fault":
         return _run_fault(ctx, case, cmd, inputs, params)
+    refs = case.get("refs")
+    if refs:
+        ctx.count("repeated_field_cases")
     n = len(inputs)
-    ctx.feature(("value", cmd, n, _dtype_class(case["inputs"]), tuple(sorted(set("m" if s["mask"] and any(s["mask"]) else "-" for s in case["inputs"]))),
+    ctx.feature(("value", cmd, n, bool(refs), _dtype_class(case["inputs"]), tuple(sorted(set("m" if s["mask"] and any(s["mask"]) else "-" for s in case["inputs"]))),
                  tuple(type(w).__name__ for w in params.get("Weights", []))))
-    out, _ = arr.run_cmd(cmd, inputs, params)
+    out, _ = arr.run_cmd(cmd, inputs, params, refs=refs)
     fcols = [arr.frac_cells(a) for a in inputs]
+    if refs:
+        fcols = [fcols[i] for i in refs]
     tclass = "first-" + _dtype_class(case["inputs"])[:1] + ("-mixed" if len(set(_dtype_class(case["inputs"]))) > 1 else "-uniform")
     try:
         want, scale = ref.MODELS[cmd](fcols, params)
@@ -148,7 +159,7 @@ def run_case(ctx, case):
                     ctx.sample({"cmd": cmd, "params": params, "inputs": [arr.describe(a, 6) for a in inputs], "result": arr.describe(res, 6)})
     # order metamorphic: same outcome class and (tolerantly) same values for a permutation of the inputs
     order = case["order"]
-    if cmd in COMMUTATIVE and n > 1 and order != sorted(order):
+    if cmd in COMMUTATIVE and n > 1 and order != sorted(order) and not refs:
         ctx.count("order_checks")
         pin = [inputs[i] for i in order]
         pout, _ = arr.run_cmd(cmd, pin, _perm_params(params, order))
